@@ -21,6 +21,9 @@ SOURCE_CASES = [
     dict(filters=["none", "own"], switch_at=32, exchanges=70, drop_every=0),   # server starts to follow us later
     dict(filters=["own", "none"], switch_at=32, exchanges=70, drop_every=0),   # ... or stops
     dict(filters=["near", "own"], switch_at=20, exchanges=70, drop_every=7),
+    # non-conforming server: short chunks must not be accepted ("chunks are accepted only ... of the requested size")
+    dict(filters=["own"], switch_at=0, exchanges=60, drop_every=0, short_every=5, short_len=8),
+    dict(filters=["none"], switch_at=0, exchanges=60, drop_every=9, short_every=4, short_len=15),
 ]
 
 
